@@ -374,7 +374,8 @@ fn gen_param(src: &mut Src, state: &mut RefFace) -> String {
         }
         5 => {
             state.underline = None;
-            "24".into()
+            // (`4:0` is the "no underline" member of the `4:n` family the library reads)
+            (*src.pick(&["24", "4:0"])).to_string()
         }
         6 => {
             let on = src.chance(1, 2);
